@@ -1,26 +1,26 @@
-\* exhaustive: 2 chunks, 2 prefetch workers, 2 on-demand reads (three steps each), 2 alterations, one Verify call + skip
+\* exhaustive, fs.Mount level: label combinations x filesystem configurations, two Mounts reaching one cached layer; base: Verify / SkipVerify calls in any order reaching one cached layer object, reads and passthrough reads in between
 CONSTANTS
     NC = 2
-    NWk = 2
-    NRd = 2
+    NWk = 0
+    NRd = 3
     MaxAlter = 2
-    MaxVerify = 1
+    MaxVerify = 2
     Kinds = {"s", "k"}
     Tocs = {"D", "X"}
     Args = {"D", "W"}
-    AtomicRead = FALSE
-    AtomicVerify = FALSE
-    WithSkip = FALSE
+    AtomicRead = TRUE
+    AtomicVerify = TRUE
+    WithSkip = TRUE
     WithPass = TRUE
-    WithTry = TRUE
+    WithTry = FALSE
     DecideUnderLock = TRUE
     AbortWhenProhibited = TRUE
     VerifyBeforeCache = TRUE
     RecheckCachedLayer = TRUE
     PassVerifies = TRUE
     TocLabelFirst = TRUE
-    WithMount = FALSE
-    FsCfgs = {"--"}
+    WithMount = TRUE
+    FsCfgs = {"--", "a-", "-d", "ad"}
 INIT Init
 NEXT Next
 VIEW core
